@@ -232,12 +232,20 @@ def flatten(script):
     if not has_batch(script):
         return script
     steps = []
-    for s in script["steps"]:
+    marks = {k: script[k] for k in ("healthy_until", "reading_until") if script.get(k) is not None}
+    new_marks = {}
+    for i, s in enumerate(script["steps"]):
+        for k, v in marks.items():
+            if i == v:
+                new_marks[k] = len(steps)
         if s["op"] == "peer_batch":
             steps += [dict(f, _batch=True) for f in s["frames"]]
         else:
             steps.append(s)
-    return dict(script, steps=steps)
+    out = dict(script, steps=steps)
+    for k in marks:
+        out[k] = new_marks.get(k, len(steps))
+    return out
 
 
 def expand_go(script, go):
@@ -269,7 +277,10 @@ def _mode(h):
 
 def oracle_line(script, variant):
     """variant = (filter_unsolicited, stamp_always) or a bool (filter only, stamp_always False)"""
-    if isinstance(variant, tuple):
+    watch = False
+    if isinstance(variant, tuple) and len(variant) == 3:      # third flag: Connect watches the loops' errors while negotiating (ModelX)
+        filter_unsolicited, stamp_always, watch = variant
+    elif isinstance(variant, tuple):
         filter_unsolicited, stamp_always = variant
     else:
         filter_unsolicited, stamp_always = variant, False
@@ -280,7 +291,7 @@ def oracle_line(script, variant):
     no_ack = bool((conn or {}).get("no_ack_handler"))
     hs = list((conn or {}).get("handlers", []) or [])
     dh = (conn or {}).get("default_handler")
-    toks = ["cfg %d %d %d %d %s %d %s" % (1 if filter_unsolicited else 0, 1 if stamp_always else 0, version, 0 if no_ack else 1, _mode(dh), len(hs),
+    toks = [("cfgx 1" if watch else "cfg") + " %d %d %d %d %s %d %s" % (1 if filter_unsolicited else 0, 1 if stamp_always else 0, version, 0 if no_ack else 1, _mode(dh), len(hs),
                                        " ".join("%d %s" % (h["typ"], _mode(h)) for h in hs))]
     ids = {}  # resolved at run time by the model itself (reply uses the index)
     for s in steps:
@@ -292,7 +303,7 @@ def oracle_line(script, variant):
                 f = s.get("first") or dict(typ=T_REN, id=0, ver=version, pl=dict(k="conn", status=0))
                 n, tag, info = pl_len_tag_info(f.get("pl"))
                 toks.append("connect first %d %d %d %d %d %s" % (f.get("ver") or version, f["typ"], f.get("id", 0), n, tag, info))
-        elif op == "peer_send" and s.get("skip") is not None:
+        elif op in ("peer_send", "reply", "keepalive") and s.get("skip") is not None:
             toks.append("prest")            # the rest of the frame the peer sent cut before (same frame spec, skip = that cut)
         elif op in ("peer_send", "keepalive"):
             typ = T_KA if op == "keepalive" else s["typ"]
@@ -303,9 +314,12 @@ def oracle_line(script, variant):
             toks.append(t)
         elif op == "reply":
             n, tag, info = pl_len_tag_info(s.get("pl"))
-            toks.append("reply %d %d %d %d %d %s" % (s["to"], s.get("ver") or 1, s["typ"], n, tag, info))
+            toks.append("reply %d %d %d %d %d %s" % (s["to"], s.get("ver") or 1, s["typ"], n, tag, info)
+                        + (" cut %d" % s["cut"] if s.get("cut") is not None else ""))
         elif op == "send":
             api = s.get("api") or "SendMessage"
+            if api == "SendFor":          # SendFor = MarshalBinary + SendMessage + a look at the reply's type (see compare)
+                api = "SendMessage"
             n = s.get("len", 0)
             ver = 1 if api == "SendMessage" else s.get("ver", 1)
             toks.append("send %d %d %d %d %d %d %d %d" % (s["caller"], s["typ"], n, s.get("tag", 0) if n else 0,
@@ -327,8 +341,8 @@ def oracle_line(script, variant):
             toks.append("pclose")
         elif op == "wait_connect":
             toks.append("wconn")
-        elif op in ("wait_ready", "state"):
-            toks.append("state")
+        elif op in ("wait_ready", "state", "release_write"):
+            toks.append("state")          # release_write (Go: the Write parked by write_fail hold now fails) observes the state
         elif op == "write_fail":
             toks.append("wfail %d" % s.get("after", 0))
         elif op == "new_client":
@@ -398,7 +412,7 @@ def canon_go(script, go):
             out.append(("close", o.get("res")))
         elif op == "wait_connect":
             out.append(("conn", o.get("res")))
-        elif op in ("wait_ready", "state"):
+        elif op in ("wait_ready", "state", "release_write"):
             if o.get("st") == "timeout":
                 out.append(("timeout",))
             else:
@@ -498,9 +512,9 @@ def shutdown_callers(script):
 
 def _shutdown_refused(model_res):
     """model_res = ("ok", typ, len, hash): the reply a Shutdown caller holds in the model. Shutdown turns every reply other
-    than a CloseConnectionResponse / ErrorMessage with status Success into an error of its own (the model keeps the reply
-    and simply does not close)"""
-    return not (model_res[0] == "ok" and model_res[1] in (T_CLOSER, T_ERR) and model_res[2] == 8 and model_res[3] == phash(status_tlv(0)))
+    than a CloseConnectionResponse with status Success into an error of its own (the model keeps the reply and simply
+    does not close)"""
+    return not (model_res[0] == "ok" and model_res[1] == T_CLOSER and model_res[2] == 8 and model_res[3] == phash(status_tlv(0)))
 
 
 def _oversize_ok(go_res, typ):
@@ -525,7 +539,17 @@ def compare(script, go, mline):
         diffs.append("oracle self-check failed: replay=%s fuel=%s" % (fin.get("replay"), fin.get("fuel")))
     if len(cg) != len(script["steps"]) or len(cm) != len(script["steps"]):
         diffs.append("observation count go=%d model=%d steps=%d" % (len(cg), len(cm), len(script["steps"])))
+    sendfor = {st["caller"]: st["typ"] for st in script["steps"] if st["op"] == "send" and st.get("api") == "SendFor"}
+
+    def sf(res, c):
+        """what SendFor makes of the reply SendMessage returned: success only for a reply of the expected type (the script's
+        Incoming has the type of the request); anything else — an ErrorMessage included — is an error"""
+        if c in sendfor and res[:1] == ("ok",) and res[1] != sendfor[c]:
+            return ("other",)
+        return res
     for i, (st, a, b) in enumerate(zip(script["steps"], cg, cm)):
+        if st["op"] in ("wait_caller", "cancel") and b[:1] == ("caller",):
+            b = ("caller",) + sf(tuple(b[1:]), st["caller"])
         if st["op"] in ("wait_caller", "cancel") and st["caller"] in shut:
             # Shutdown returns nil where the model's caller holds the (acceptable) reply
             if a == ("caller", "nil") and b[:2] == ("caller", "ok"):
@@ -558,6 +582,7 @@ def compare(script, go, mline):
             diffs.append("final: caller %d missing in Go" % c)
             continue
         gr = _res_go(g, ht)[1:]
+        mr = sf(tuple(mr), c)
         if mr == ("blocked",):
             if gr[0] not in ("ctx", "closed"):
                 diffs.append("final: caller %d blocked in the model, Go after cleanup: %s" % (c, gr))
@@ -592,6 +617,7 @@ def go_view(script, go):
        reqs:   caller -> dict(typ,len,hash,api)"""
     script, go = flatten(script), expand_go(script, go)
     frames, peer = [], []
+    frames_at = []      # step index at which the peer read frames[i]
     waits, cancelled_at, ending_at = [], {}, None
     for idx, (st, o) in enumerate(zip(script["steps"], go.get("obs") or [])):
         op = st["op"]
@@ -599,12 +625,22 @@ def go_view(script, go):
             waits.append((idx, st["caller"], o))
         elif op == "cancel":
             cancelled_at.setdefault(st["caller"], idx)
-        elif op in ("close", "peer_close", "shutdown", "write_fail") and ending_at is None:
+        elif op in ("close", "peer_close", "write_fail") and ending_at is None:
             ending_at = idx
+        elif (op in ("reply", "peer_send") and ending_at is None and st.get("typ") == T_CLOSER
+              and (st.get("pl") or {}).get("k") == "status" and (st.get("pl") or {}).get("code", 0) == 0
+              and o.get("id", st.get("id")) in {f.get("id") for f in frames if f.get("typ") == T_CLOSE}):
+            ending_at = idx      # the reader confirms a CloseConnection: Shutdown closes the client (a mere Shutdown CALL ends nothing:
+                                 # requests outstanding across it are still answered and their replies still delivered)
         if op in ("expect_frame", "expect_rest") and o.get("st") not in ("none", None, "no-header", "broken"):
             frames.append(o)
+            frames_at.append(idx)
         elif op == "drain":
             frames += list(o.get("frames") or [])
+            frames_at += [idx] * len(o.get("frames") or [])
+            if o.get("st") in ("short-header", "short-payload", "bad-lenfield"):
+                frames.append(dict(st=o["st"], why="the frame at which the drain stopped"))      # what follows is not a whole frame
+                frames_at.append(idx)
         elif op in ("peer_send", "keepalive", "reply") or (op == "connect" and not st.get("no_first")):
             if op == "connect":
                 f = st.get("first") or dict(typ=T_REN, id=0, pl=dict(k="conn", status=0))
@@ -613,16 +649,16 @@ def go_view(script, go):
                 typ = T_KA if op == "keepalive" else st["typ"]
                 mid, pl = o.get("id", st.get("id", 0)), st.get("pl")
             pn, ph = pl_len_hash(pl)
-            peer.append(dict(idx=idx, typ=typ, id=mid, len=pn, hash=ph, op=op, st=o.get("st"), first=(op == "connect"),
+            peer.append(dict(idx=idx, typ=typ, id=mid, len=pn, hash=ph, op=op, st=o.get("st"), first=(op == "connect" or bool(st.get("_first"))),
                              cut=st.get("cut"), skip=st.get("skip"), to=(st.get("to") if op == "reply" else None)))
     reqs = {}
-    for st in script["steps"]:
+    for sidx, st in enumerate(script["steps"]):
         if st["op"] == "send":
             n = st.get("len", 0)
             reqs[st["caller"]] = dict(typ=st["typ"], len=n, hash=tag_hash(n, st.get("tag", 0)), api=st.get("api") or "SendMessage",
-                                      msgid=st.get("msgid", 0))
+                                      msgid=st.get("msgid", 0), idx=sidx)
         elif st["op"] == "shutdown":
-            reqs[st["caller"]] = dict(typ=T_CLOSE, len=0, hash=phash(b""), api="Shutdown", msgid=0)
+            reqs[st["caller"]] = dict(typ=T_CLOSE, len=0, hash=phash(b""), api="Shutdown", msgid=0, idx=sidx)
     callers = {int(c): r for c, r in ((go.get("final") or {}).get("callers") or {}).items()}
     # what each caller's result looked like when the script first inspected it (the bytes SendMessage returned
     # are retained by the harness and hashed again for the final observation, after all later replies)
@@ -644,11 +680,18 @@ def go_view(script, go):
         p["answers"] = None
         if p.get("to") is not None and 0 <= p["to"] < len(frames):
             f = frames[p["to"]]
-            own = [c for c, r in reqs.items() if (r["typ"], r["len"], r["hash"]) == (f.get("typ"), f.get("len"), f.get("hash"))]
+            # (a frame read before a call was made is not that call's request: the client's own GetSupportedVersion /
+            # SetProtocolVersion look like a caller's)
+            own = [c for c, r in reqs.items() if (r["typ"], r["len"], r["hash"]) == (f.get("typ"), f.get("len"), f.get("hash"))
+                   and r["idx"] < frames_at[p["to"]]]
             if len(own) == 1:
                 p["answers"] = own[0]
+    # walks: the step from which on the read side no longer serves replies (closed / connection lost), as the model saw it
+    hu = script.get("reading_until", script.get("healthy_until"))
+    if hu is not None and (ending_at is None or hu < ending_at):
+        ending_at = hu
     return dict(frames=frames, peer=peer, callers=callers, reqs=reqs, first_seen=first_seen,
-                waits=waits, cancelled_at=cancelled_at, ending_at=ending_at)
+                waits=waits, cancelled_at=cancelled_at, ending_at=ending_at, early=bool(script.get("early")))
 
 
 def wire_id_of(view, c):
@@ -695,6 +738,8 @@ def pred_c03(view):
         elif not cands:
             bad.append(("reply-not-from-peer", "caller %d got (typ %d, len %d, hash %s) which the peer never sent" % (
                 c, res["typ"], res["len"], res["hash"])))
+        elif not mine and not ids and view.get("early"):
+            pass        # the peer answered (by guessing the id) a request the write loop still holds and which is never read
         elif not mine:
             bad.append(("reply-misdelivered", "caller %d (request id %s) got a reply the peer sent with id %s" % (
                 c, ids, sorted({p["id"] for p in cands}))))
@@ -711,6 +756,8 @@ def pred_c03(view):
         if p["typ"] in UNSOLICITED or p["len"] > MAX_BUFFERED or view["reqs"][c]["api"] in ("SendNoWait", "Shutdown"):
             continue
         end = view.get("ending_at")
+        if end is not None and p.get("idx", 0) >= end:
+            continue
         cidx = (view.get("cancelled_at") or {}).get(c)
         for widx, wc, o in view.get("waits") or []:
             if wc != c or widx < p.get("idx", 1 << 30):
@@ -761,13 +808,14 @@ def pred_c05(view, script=None):
         seen_req[key] = seen_req.get(key, 0) + 1
         req_ids.append(f["id"])
     for key, n in seen_req.items():
-        if n > len(by_req[key]):
+        # a caller's own GetSupportedVersion / SetProtocolVersion looks like the client's negotiation message: one more is fine
+        if n > len(by_req[key]) + (1 if (key[0], key[1]) in internal else 0):
             bad.append(("request-duplicated", "request typ %d len %d written %d times for %d caller(s)" % (key[0], key[1], n, len(by_req[key]))))
     for c, res in view["callers"].items():
         if c in view["reqs"] and res.get("res") in ("ok", "nil"):
             r = view["reqs"][c]
             key = (r["typ"], r["len"], r["hash"])
-            if seen_req.get(key, 0) < 1:
+            if seen_req.get(key, 0) < 1 and not view.get("early"):
                 bad.append(("replied-but-not-written", "caller %d obtained a reply but its request never reached the peer intact" % c))
     preset = any(r.get("msgid") for r in view["reqs"].values())
     if not preset and len(set(req_ids)) != len(req_ids):
@@ -784,6 +832,21 @@ def pred_c07(view, strict_pending=4):
     order = view.get("order")
     if order is None:
         return bad
+
+    def missing(m):
+        """m has to be acknowledged and is not. Several pending keep-alives may carry the same id, and an earlier one of
+        them may have been dropped (full backlog) or need not be acknowledged: if such a one was credited with an
+        acknowledgement, the credit goes to m"""
+        if not m[1] or m[2]:
+            return False
+        for o_ in must:
+            if o_ is m:
+                break
+            if o_[0] == m[0] and o_[2] and not o_[1]:
+                o_[2], m[2] = False, True
+                m.append(o_.pop())
+                return False
+        return True
     pending = []      # keep-alive ids not yet acknowledged (in order)
     must = []         # [id, must_be_acked, acked]
     settled = set()   # indices into must: keep-alives whose fate was decided at an earlier drain (acked or dropped)
@@ -795,7 +858,7 @@ def pred_c07(view, strict_pending=4):
                 if k in settled:
                     continue
                 settled.add(k)
-                if m[1] and not m[2]:
+                if missing(m):
                     bad.append(("keepalive-not-acked", "keep-alive id %d (at most %d pending before it) was never acknowledged" % (m[0], strict_pending)))
             continue
         if kind == "ack-shape":
@@ -811,7 +874,7 @@ def pred_c07(view, strict_pending=4):
             # be enqueued must have been acknowledged by now — acknowledging may not wait for anything else (replies to
             # outstanding requests, further traffic)
             for k, m in enumerate(must):
-                if k not in settled and m[1] and not m[2]:
+                if k not in settled and missing(m):
                     bad.append(("keepalive-ack-stalled", "keep-alive id %d is not acknowledged although the peer is reading and the "
                                 "client is idle (at most %d were pending before it)" % (m[0], strict_pending)))
                     break
@@ -820,6 +883,15 @@ def pred_c07(view, strict_pending=4):
             if view.get("serving", True):
                 bad.append(("keepalive-not-read", "keep-alive id %d was not even read by the client although the connection is up "
                             "(the read loop is stuck)" % mid))
+            continue
+        if kind == "end":
+            # the healthy part of the run is over: what is not acknowledged by now no longer has to be
+            for k, m in enumerate(must):
+                if not m[2]:
+                    m[1] = False
+            continue
+        if kind == "ka-opt":
+            must.append([mid, False, False])
             continue
         if kind == "ka":
             must.append([mid, len([m for k, m in enumerate(must) if not m[2] and k not in settled]) <= strict_pending, False])
@@ -831,14 +903,19 @@ def pred_c07(view, strict_pending=4):
             # order: an ack must not overtake an earlier keep-alive that is acknowledged later
             tgt[2] = True
             tgt.append(len([1 for m in must if m[2]]))
-    acked_order = [m for m in must if m[2]]
+    idcount = {}
+    for m in must:
+        idcount[m[0]] = idcount.get(m[0], 0) + 1
+    # (order is judged on keep-alives whose id is unique in the script: which of several pending keep-alives with one id
+    # an acknowledgement belongs to cannot be told from the wire)
+    acked_order = [m for m in must if m[2] and idcount[m[0]] == 1]
     if [m[3] for m in acked_order] != sorted(m[3] for m in acked_order):
         bad.append(("ack-order", "acknowledgements out of order: %s" % [(m[0], m[3]) for m in acked_order]))
     if view.get("drained"):
         for k, m in enumerate(must):
             if k in settled:
                 continue
-            if m[1] and not m[2]:
+            if missing(m):
                 bad.append(("keepalive-not-acked", "keep-alive id %d (at most %d pending before it) was never acknowledged" % (m[0], strict_pending)))
     return bad
 
@@ -847,13 +924,25 @@ def c07_order(script, go):
     """sequence of ('ka', id) / ('ack', id) events in script order; drained = the script ends by draining"""
     script, go = flatten(script), expand_go(script, go)
     order = []
-    for st, o in zip(script["steps"], go.get("obs") or []):
+    hu = script.get("healthy_until")
+    for idx, (st, o) in enumerate(zip(script["steps"], go.get("obs") or [])):
         op = st["op"]
-        if op == "keepalive" or (op == "peer_send" and st.get("typ") == T_KA):
-            if o.get("st") == "ok":
-                order.append(("ka", st.get("id", 0)))
+        if hu is not None and idx == hu:
+            order.append(("end", None))   # walks: from here on the connection is being ended / no longer established
+        if op == "keepalive" or (op in ("peer_send", "reply") and st.get("typ") == T_KA):
+            if st.get("cut") is not None:
+                continue          # a keep-alive sent in two pieces counts when (and if) its rest arrives
+            kid = o.get("id", st.get("id", 0)) if op == "reply" else st.get("id", 0)
+            optional = bool(st.get("_first")) or (hu is not None and idx >= hu)
+            if optional:
+                # the first message of a connection / sent while the connection is ending: the property does not demand an
+                # acknowledgement, and does not forbid one
+                if o.get("st") == "ok":
+                    order.append(("ka-opt", kid))
+            elif o.get("st") == "ok":
+                order.append(("ka", kid))
             elif o.get("st") == "blocked":
-                order.append(("ka-unread", st.get("id", 0)))
+                order.append(("ka-unread", kid))
         elif op == "expect_frame" and o.get("st") == "ok" and o["typ"] == T_ACK:
             order.append(("ack", o["id"]))
             if o.get("lenfield") != 10 or o.get("len", 0) != 0:
@@ -863,6 +952,8 @@ def c07_order(script, go):
         elif op == "expect_frame" and o.get("st") == "none":
             order.append(("idle", None))
         elif op == "drain":
+            if o.get("st") in ("short-header", "short-payload", "bad-lenfield"):
+                order.append(("bad-frame", (o.get("st"), "?", "?", "?", "?")))
             for f in o.get("frames") or []:
                 if f.get("st") == "ok" and f["typ"] == T_ACK:
                     order.append(("ack", f["id"]))
@@ -1259,8 +1350,12 @@ def shrink(script, still_fails, max_rounds=200, budget_s=20.0):
                 continue
         rounds += 1
         sc = dict(script, steps=cand)
+        for mk in ("healthy_until", "reading_until"):
+            if script.get(mk) is not None and i < script[mk]:
+                sc[mk] = script[mk] - 1
         if still_fails(sc):
             steps = cand
+            script = sc
         else:
             i += 1
     return dict(script, steps=steps)
